@@ -372,30 +372,6 @@ func (p *path) addRule(
 		return nil
 	}
 
-	// All bindings of a node belong to one method, whatever the order they
-	// are added in.
-	conflict := func(y *method) bool {
-		return y != nil && y.desc.FullName() != desc.FullName()
-	}
-	if conflict(cursor.methodAll) {
-		return fmt.Errorf("duplicate rule %v", rule)
-	}
-	if verb == "*" {
-		for _, y := range cursor.methods {
-			if conflict(y) {
-				return fmt.Errorf("duplicate rule %v", rule)
-			}
-		}
-		if cursor.methodAll != nil {
-			return additional() // Method already registered.
-		}
-	} else if y, ok := cursor.methods[verb]; ok {
-		if conflict(y) {
-			return fmt.Errorf("duplicate rule %v", rule)
-		}
-		return additional() // Method already registered.
-	}
-
 	m := &method{
 		desc: desc,
 		vars: varfds,
@@ -432,6 +408,30 @@ func (p *path) addRule(
 				return fmt.Errorf("response body field error %v: not a message field", rule.ResponseBody)
 			}
 		}
+	}
+
+	// All bindings of a node belong to one method, whatever the order they
+	// are added in.
+	conflict := func(y *method) bool {
+		return y != nil && y.desc.FullName() != desc.FullName()
+	}
+	if conflict(cursor.methodAll) {
+		return fmt.Errorf("duplicate rule %v", rule)
+	}
+	if verb == "*" {
+		for _, y := range cursor.methods {
+			if conflict(y) {
+				return fmt.Errorf("duplicate rule %v", rule)
+			}
+		}
+		if cursor.methodAll != nil {
+			return additional() // Method already registered.
+		}
+	} else if y, ok := cursor.methods[verb]; ok {
+		if conflict(y) {
+			return fmt.Errorf("duplicate rule %v", rule)
+		}
+		return additional() // Method already registered.
 	}
 
 	// register method
